@@ -52,6 +52,25 @@ type Inst struct {
 	Pad    int               `json:"pad,omitempty"` // the duration numbers are written with this many leading zeros ("010/016" is 10/16)
 }
 
+// padNum writes the number inside an interval ("b10") or a tempo with the instance's leading zeros ("b010", "0120").
+func (d Inst) padNum(s string) string {
+	if d.Pad == 0 {
+		return s
+	}
+	i := strings.IndexAny(s, "0123456789")
+	if i < 0 {
+		return s
+	}
+	return s[:i] + strings.Repeat("0", d.Pad) + s[i:]
+}
+
+func (d Inst) ypPad(s string) string {
+	if d.Pad > 0 {
+		return yq(d.padNum(s))
+	}
+	return yp(s)
+}
+
 // spell writes a duration the way the document spells it.
 func (d Inst) spell(v Frac) string {
 	z := strings.Repeat("0", d.Pad)
@@ -149,14 +168,14 @@ func (d Inst) yaml() string {
 	}
 	sb.WriteString("]\n")
 	if c := d.Chord; c != nil {
-		sb.WriteString(fmt.Sprintf("  chord: {degree: %s, name: %s", yq(ivText(c.Deg, c.Suffix)), yq(c.name())))
+		sb.WriteString(fmt.Sprintf("  chord: {degree: %s, name: %s", yq(d.padNum(ivText(c.Deg, c.Suffix))), yq(c.name())))
 		if c.Bass != nil {
-			sb.WriteString(fmt.Sprintf(", base: %s", yq(ivText(*c.Bass, c.Suffix))))
+			sb.WriteString(fmt.Sprintf(", base: %s", yq(d.padNum(ivText(*c.Bass, c.Suffix)))))
 		}
 		sb.WriteString("}\n")
 	}
 	if d.BPM != nil {
-		sb.WriteString(fmt.Sprintf("  bpm: %d\n", *d.BPM))
+		sb.WriteString(fmt.Sprintf("  bpm: %s\n", d.padNum(fmt.Sprint(*d.BPM))))
 	}
 	if d.Vel != nil {
 		sb.WriteString(fmt.Sprintf("  velocity: %s\n", yq(*d.Vel)))
@@ -231,9 +250,9 @@ func (d Inst) yamlPlain() string {
 	}
 	if c := d.Chord; c != nil {
 		item("chord:\n")
-		sb.WriteString(fmt.Sprintf("    degree: %s\n    name: %s\n", yp(ivText(c.Deg, c.Suffix)), yq(c.name())))
+		sb.WriteString(fmt.Sprintf("    degree: %s\n    name: %s\n", d.ypPad(ivText(c.Deg, c.Suffix)), yq(c.name())))
 		if c.Bass != nil {
-			sb.WriteString(fmt.Sprintf("    base: %s\n", yp(ivText(*c.Bass, c.Suffix))))
+			sb.WriteString(fmt.Sprintf("    base: %s\n", d.ypPad(ivText(*c.Bass, c.Suffix))))
 		}
 	}
 	if len(d.Values) == 0 {
@@ -249,7 +268,7 @@ func (d Inst) yamlPlain() string {
 		}
 	}
 	if d.BPM != nil {
-		item("bpm: %d\n", *d.BPM)
+		item("bpm: %s\n", d.padNum(fmt.Sprint(*d.BPM)))
 	}
 	if d.Vel != nil {
 		item("velocity: %s\n", yp(*d.Vel))
@@ -436,9 +455,9 @@ func genInst(o DocOpts) *rapid.Generator[Inst] {
 			in.Values = []Frac{{rapid.IntRange(1, 4).Draw(t, "sv"), rapid.SampledFrom([]int{1, 1, 2, 4}).Draw(t, "sd")}}
 		} else {
 			in.Values = genValues(4).Draw(t, "values")
-			if coin(t, "zero-padded-values", 5) {
-				in.Pad = rapid.IntRange(1, 3).Draw(t, "pad")
-			}
+		}
+		if coin(t, "zero-padded-numbers", 5) {
+			in.Pad = rapid.IntRange(1, 3).Draw(t, "pad") // durations, interval numbers and the tempo written like 010
 		}
 		in.BPM = opt(t, "bpm", o.Settings, genBPM)
 		in.Vel = opt(t, "vel", o.Settings, rapid.SampledFrom(theory.Dynamics))
